@@ -1481,7 +1481,7 @@ impl Prop for C18 {
         600
     }
     fn rule() -> &'static str {
-        "one evaluation = one generated disk layout (1..4 search directories in a seeded order; include graph of depth 0..4 with plain and quoted includes, includes that include, embed-file bin/hex/sexp, every dialect sigil and none; the same relative name present with different contents in several directories; static disk faults: unreadable copy, directory or dangling symlink in place of a file, empty file) on which the real gather_dependencies and then a real compile entry point are run by one actor; every open/read of the compile phase is observed at the libc seam and compared by (device, inode) with the listing. Non-trivial = listing and compile both succeeded, the run was judged, and the compile read >= 2 files besides the main file with at least one of them reached only through another include or through embed-file, or a decoy / unreadable copy was actually opened by the compile. Distinct = distinct layouts (hash of the complete workload description) among non-trivial runs."
+        "one evaluation = one generated disk layout (1..4 search directories in a seeded order and spelling, one layout in five with an additional empty-string entry that names the current directory, where some of the files have copies of their own; include graph of depth 0..4 with plain and quoted includes, includes that include, embed-file bin/hex/sexp, every dialect sigil and none; the same relative name present with different contents in several directories; static disk faults: unreadable copy, directory or dangling symlink in place of a file, empty file) on which the real gather_dependencies and then a real compile entry point are run by one actor; every open/read of the compile phase is observed at the libc seam and compared by (device, inode) with the listing. Non-trivial = listing and compile both succeeded, the run was judged, and the compile read >= 2 files besides the main file with at least one of them reached only through another include or through embed-file, or a decoy / unreadable copy was actually opened by the compile. Distinct = distinct layouts (hash of the complete workload description) among non-trivial runs."
     }
     fn assumptions() -> Vec<String> {
         vec![
